@@ -131,7 +131,7 @@ def model_eval(r, pool=None):
         if b[3] == "any":
             raise ModelExc("EmptyClassException")
         if a[3] == "any":
-            return ("cls", b[1], not b[2], None)        # Any - B == ~B
+            return ("cls", b[1], not b[2], b[3] if b[3] == "gword" else None)        # Any - B == ~B (a global word class stays one)
         if a[3] == "gword":
             raise ModelExc("GlobalWordCharSubtractionException")
         s = iv.difference(a[1], b[1])
